@@ -4,26 +4,27 @@ C18 — property theorems of round 5.
 decrypters per group   loadDecrypters_fingerprints, foreign_fingerprint_has_no_decrypter, decrypterOf_last_wins,
                        decrypters_of_a_group_ignore_the_other_groups, cs_rejects_fingerprint_of_another_group,
                        rest_signed_route_rejects_key_of_another_group
+converse               jwt_complete_monitor_sound, jwt_valid_credential_runs_handler, rest_valid_request_reaches_handler
 -/
 import GoZero.C18.PropsRest
 namespace GoZero.C18
 
 /-! ## the decrypters of a route group -/
 
-private def ldStep {D : Type} (load : String → Option D) (acc : Option (List (String × D))) (k : KeyConf) :
+def ldStep {D : Type} (load : String → Option D) (acc : Option (List (String × D))) (k : KeyConf) :
     Option (List (String × D)) :=
   acc.bind fun m => (load k.2).map fun d => m ++ [(k.1, d)]
 
-private theorem loadDecrypters_eq {D : Type} (load : String → Option D) (keys : List KeyConf) :
+theorem loadDecrypters_eq {D : Type} (load : String → Option D) (keys : List KeyConf) :
     loadDecrypters load keys = keys.foldl (ldStep load) (some []) := rfl
 
-private theorem ld_none {D : Type} (load : String → Option D) (keys : List KeyConf) :
+theorem loadDecrypters_failed_stays_failed {D : Type} (load : String → Option D) (keys : List KeyConf) :
     keys.foldl (ldStep load) none = none := by
   induction keys with
   | nil => rfl
   | cons k ks ih => simpa [List.foldl, ldStep] using ih
 
-private theorem ld_fps {D : Type} (load : String → Option D) (keys : List KeyConf) (m0 m : List (String × D))
+theorem loadDecrypters_fingerprints_from {D : Type} (load : String → Option D) (keys : List KeyConf) (m0 m : List (String × D))
     (h : keys.foldl (ldStep load) (some m0) = some m) : m.map (·.1) = m0.map (·.1) ++ keys.map (·.1) := by
   induction keys generalizing m0 with
   | nil => simp at h; subst h; simp
@@ -32,7 +33,7 @@ private theorem ld_fps {D : Type} (load : String → Option D) (keys : List KeyC
     cases hl : load k.2 with
     | none =>
       have : ldStep load (some m0) k = none := by simp [ldStep, hl]
-      rw [this, ld_none] at h
+      rw [this, loadDecrypters_failed_stays_failed] at h
       exact absurd h (by simp)
     | some d =>
       have : ldStep load (some m0) k = some (m0 ++ [(k.1, d)]) := by simp [ldStep, hl]
@@ -45,7 +46,7 @@ private theorem ld_fps {D : Type} (load : String → Option D) (keys : List KeyC
 theorem loadDecrypters_fingerprints {D : Type} (load : String → Option D) (keys : List KeyConf) (m : List (String × D))
     (h : loadDecrypters load keys = some m) : m.map (·.1) = keys.map (·.1) := by
   rw [loadDecrypters_eq] at h
-  simpa using ld_fps load keys [] m h
+  simpa using loadDecrypters_fingerprints_from load keys [] m h
 
 /-- a fingerprint the group did not configure has no decrypter — whichever other group of the server configured it -/
 theorem foreign_fingerprint_has_no_decrypter {D : Type} (load : String → Option D) (keys : List KeyConf)
@@ -128,6 +129,50 @@ theorem rest_signed_route_rejects_key_of_another_group {D : Type} (custom : Opti
   | true =>
     have := (runChain_ran_iff _ chn).mp hr contentSecurityName hin
     simp [respVerdict, hrej] at this
+
+/-! ## the converse direction: valid credentials reach the handler -/
+
+/-- the completeness monitor never fires on what the model does: the gate turns away ONLY requests without a valid
+credential (for every token, time, history, secret pair and clock) -/
+theorem jwt_complete_monitor_sound {V : Type} (f : TokenFacts V) (now : Int) (h : Hist) (secret prev : String) (clock : Int) :
+    jwtCompleteMonitor f now secret prev (authorize (jwtVerify f now) h secret prev clock).2 = none := by
+  have hiff := jwt_handler_runs_iff_valid_credential f now h secret prev clock
+  unfold jwtCompleteMonitor
+  rw [← hiff]
+  cases (authorize (jwtVerify f now) h secret prev clock).2.ran <;> simp
+
+/-- a valid credential is accepted whatever the history counters say and whichever of the two secrets signed it:
+`Authorize(secret, WithPrevSecret(prev))` runs the handler for every token that is valid under `secret` or under a
+non-empty `prev` -/
+theorem jwt_valid_credential_runs_handler {V : Type} (f : TokenFacts V) (now : Int) (h : Hist) (secret prev : String)
+    (clock : Int) (hc : credentialOk f now secret prev = true) :
+    (authorize (jwtVerify f now) h secret prev clock).2.ran = true := by
+  rw [jwt_handler_runs_iff_valid_credential]; exact hc
+
+/-- at the level of a server, for EVERY base chain, `Use` list and option set: when every middleware of the base chain,
+every gate the route declared and every `Use` middleware passes the request on, the route's handler runs -/
+theorem rest_valid_request_reaches_handler (custom : Option (List String)) (m : MwConf) (o : RouteOpts)
+    (uses chn : List String) (v : String → Option Nat) (hb : bindRoute custom m o uses = some chn)
+    (hbase : ∀ n ∈ custom.getD (nativeChain m), v n = none) (hgates : ∀ g ∈ gatesOf o, v g = none)
+    (huses : ∀ n ∈ uses, v n = none) : (runChain v chn).ran = true := by
+  rw [bindRoute_chain custom m o uses chn hb]
+  apply (runChain_ran_iff v _).mpr
+  intro n hn
+  simp only [List.mem_append] at hn
+  rcases hn with (hn | hn) | hn
+  · exact hbase n hn
+  · exact hgates n hn
+  · exact huses n hn
+
+private def exValidFacts : TokenFacts String :=
+  { present := true, segs := 3, hdrOk := true, clmOk := true, alg := some "HS256", sigOk := fun s => s = "k",
+    exp := .at 10, nbf := .absent, iat := .absent, claims := [] }
+
+/-- the monitor clause fires on a rejected valid token and is silent on an accepted one -/
+example : jwtCompleteMonitor exValidFacts 5 "k" "" { ran := false, status := 401, ctx := [] } ≠ none := by decide
+example : jwtCompleteMonitor exValidFacts 5 "k" "" { ran := true, status := 200, ctx := [] } = none := by decide
+example : restCompleteMonitor { jwt := true } true true false true false 401 ≠ none := by decide
+example : restCompleteMonitor { jwt := true } true false false true false 401 = none := by decide
 
 /-! ### non-vacuity -/
 
